@@ -137,7 +137,7 @@ func shieldAddOp(r *rand.Rand, k, src, tgt int, terms map[int]float64, flat floa
 	}
 	return wire.R("add").I("key", k).I("src", src).I("tgt", tgt).Ss("terms", termsStr(terms)).F("flat", flat).
 		F("srcatk", pick(r, 50.0, 700, 1234.5)).F("srcdef", pick(r, 400.0, 1100.75, 0)).F("srchp", srchp).F("tgthp", tgthp).
-		F("boost", pick(r, 0.0, 0.2, 0.5)).F("taken", pick(r, 0.0, 0.1, 0.3))
+		F("boost", pick(r, 0.0, 0.2, 0.5, 0, 0.2, -1.5, -1)).F("taken", pick(r, 0.0, 0.1, 0.3, 0, 0.1, -1.5))
 }
 
 func (shieldComp) Gen(r *rand.Rand, tier string, n int) []*wire.Case {
@@ -158,6 +158,17 @@ func (shieldComp) Gen(r *rand.Rand, tier string, n int) []*wire.Case {
 	mk("d-pass", abs(2, 10), abs(2, -1), abs(2, 0), plain(1, 1, 2, map[int]float64{1: 1}, 0), abs(3, 10))
 	// damage between 0 and 1 on a shielded unit is absorbed like any other; exactly 0 and below pass through
 	mk("d-small-damage", plain(1, 1, 2, map[int]float64{1: 1}, 0), abs(2, 0.5), abs(2, 1), abs(2, 0.25), abs(2, 1e-9), abs(2, 0), abs(2, 48), abs(2, 0.5))
+	neg := func(op *wire.Rec) *wire.Rec { // the target's shield-taken bonus at -150 %
+		for i := range op.KV {
+			if op.KV[i][0] == "taken" {
+				op.KV[i][1] = wire.FStr(-1.5)
+			}
+		}
+		return op
+	}
+	// shields of negative strength (a bonus below -100 %, a negative flat value): still shields — a hit takes from each, none ends below zero, those at zero go
+	mk("d-negative-strength", neg(plain(1, 1, 2, map[int]float64{2: 0.4}, 10)), neg(plain(2, 1, 2, map[int]float64{}, 20)), abs(2, 30), abs(2, 5),
+		plain(3, 1, 2, map[int]float64{}, -25), plain(4, 1, 2, map[int]float64{1: 1}, 0), abs(2, 30), abs(2, 100), plain(5, 3, 3, map[int]float64{}, -1), abs(3, 0), abs(3, -2), abs(3, 0.5))
 	mk("d-equal", plain(1, 1, 2, map[int]float64{1: 1}, 0), abs(2, 50), abs(2, 50))
 	mk("d-three-terms", plain(1, 1, 2, map[int]float64{1: 0.1, 2: 0.7, 3: 0.013, 4: 0.0007, 5: 0.3}, 0.1), abs(2, 3))
 	mk("d-total-shield", plain(1, 2, 1, map[int]float64{1: 1}, 0), plain(2, 1, 3, map[int]float64{5: 0.5}, 0), abs(3, 10))
@@ -172,7 +183,7 @@ func (shieldComp) Gen(r *rand.Rand, tier string, n int) []*wire.Case {
 				for t := 0; t < r.Intn(4); t++ {
 					terms[pick(r, 1, 2, 3, 4, 5)] = pick(r, 0.1, 0.25, 0.5, 1, 0.013)
 				}
-				ops = append(ops, shieldAddOp(r, pick(r, 1, 2, 3), pick(r, 1, 2, 3), tgt, terms, pick(r, 0.0, 0, 30, 120.5)))
+				ops = append(ops, shieldAddOp(r, pick(r, 1, 2, 3), pick(r, 1, 2, 3), tgt, terms, pick(r, 0.0, 0, 30, 120.5, 30, -20, -500)))
 			case 4:
 				ops = append(ops, rm(pick(r, 1, 2, 3, 4), tgt))
 			default:
